@@ -800,7 +800,7 @@ fn main() {
         one: rayon::ThreadPoolBuilder::new().num_threads(1).build().unwrap(),
         eight: rayon::ThreadPoolBuilder::new().num_threads(8).build().unwrap(),
     };
-    let mut out = Out::new(&args, "From Verif Require Import Solver.", "Solver.case", "Solver.check_case", if args.thorough { 60 } else { 24 });
+    let mut out = Out::new(&args, "From Verif Require Import Solver.", "Solver.case", "Solver.check_case", if args.thorough { 30 } else { 24 });
     out.rule = "every solver of samyama-optimization (25 single-objective solvers, Rao and QO-Rao in their 3 variants = 29 \
                 runs; 4 multi-objective solvers, MO-BMWR in 3 variants = 6 runs) x generated box problems: dimension 1-6, \
                 per-coordinate bounds asymmetric / one-sided / a few ulps or 1e-12 wide / up to 1e100 wide / pinned \
